@@ -1102,7 +1102,8 @@ bn_digits_export_le_bin(bn_digit_t *a, size_t count, uint32_t flags,
 		if (ddiff == BN_DIGIT_SIZE && 0 != a[(count - 1)])
 			return (EOVERFLOW);
 		/* Calculate maximum value of last bn_digit_t to export. */
-		if (a[(count - 1)] >= (((bn_digit_t)1) << (1 + (ddiff * 8))))
+		if (ddiff == BN_DIGIT_SIZE ||
+		    a[(count - 1)] >= (((bn_digit_t)1) << ((BN_DIGIT_SIZE - ddiff) * 8)))
 			return (EOVERFLOW);
 		bn_size = buf_size; /* Fix len and continue. */
 		if (NULL != buf_size_ret) /* Update return value. */
